@@ -72,7 +72,7 @@ static const char *project(int k, vh_sb *out) {
         }
     } else if (is("url")) {
         spif_url_t x = (spif_url_t) o; const char *h = strtext(spif_url_get_host(x));
-        p = id_of(strtext(SPIF_STR(x)), T_URL, 3);
+        p = (strtext(SPIF_STR(x)) && *strtext(SPIF_STR(x))) ? id_of(strtext(SPIF_STR(x)), T_URL, 3) : 0;   /* absent or empty */
         q = (h && !strncmp(h, "zz", 2)) ? id_of(h, T_HOSTSET, 3) : ((p > 0 && !h) ? 9 : 0);   /* 9: cleared */
         if (p == 3) {   /* the other components of the long text must read back as parsed, in the original and in any copy */
             const char *u = strtext(spif_url_get_user(x)), *pw = strtext(spif_url_get_passwd(x)), *pr = strtext(spif_url_get_proto(x));
@@ -136,6 +136,18 @@ static const char *vh_step(const vh_step_t *st, vh_sb *ret, vh_sb *state) {
                       : is("tok") ? spif_tok_set_sep((spif_tok_t) S[k], (spif_str_t) NULL)
                       : spif_url_set_host((spif_url_t) S[k], (spif_str_t) NULL);
         sb_bool(ret, r);
+    } else if (OP("clear_p")) {
+        spif_bool_t r = is("objpair") ? spif_objpair_set_key(SPIF_OBJPAIR(S[k]), (spif_obj_t) NULL)
+                                      : spif_tok_set_src((spif_tok_t) S[k], (spif_str_t) NULL);
+        sb_bool(ret, r);
+    } else if (OP("str_cut")) {
+        /* the parent's splice removes every character: the text is present but empty */
+        spif_str_t x = SPIF_STR(S[k]);
+        sb_bool(ret, spif_str_splice_from_ptr(x, 0, spif_str_get_len(x), (spif_charptr_t) NULL));
+    } else if (OP("new_empty")) {
+        S[0] = is("url") ? SPIF_OBJ(spif_url_new_from_ptr((spif_charptr_t) "")) : SPIF_OBJ(spif_regexp_new_from_ptr((spif_charptr_t) ""));
+        if ((inv = check_type(S[0]))) return inv;
+        sb_bool(ret, 1);
     } else if (OP("str_trim")) {
         /* the PARENT class's mutator on a url / regexp */
         sb_bool(ret, spif_str_trim(SPIF_STR(S[k])));
